@@ -8,6 +8,7 @@ import (
 	"go/token"
 	"go/types"
 	"sort"
+	"strings"
 
 	"github.com/goplus/gogen/typeutil"
 )
@@ -63,6 +64,10 @@ func G13[U interface{ Less(U) bool }](a, b U) bool { return a.Less(b) }
 func G14[P interface{ *Q }, Q any](p P) Q { var z Q; return z }
 func G15[X interface{ *Y }, Y any](p X) Y { var z Y; return z }
 
+func (l *List[T]) Push(v T) *List[T] { return l }
+func (l *List[T]) Each(f func(T) bool) {}
+func (p Pair[K, V]) Swap() Pair[K, K] { var z Pair[K, K]; return z }
+
 type A1 = []int
 type A2 = map[string][]int
 type A3 = N2
@@ -114,6 +119,32 @@ var (
 )
 `
 
+// genericShapes: positions in which a type parameter can occur inside a generic signature.
+// Every shape is emitted as two functions that differ only in the names of their type
+// parameters (identical signatures), in both packages; %[1]s / %[2]s are the parameters.
+var genericShapes = []string{
+	"%[1]s", "[]%[1]s", "*%[1]s", "[3]%[1]s", "map[%[2]s]%[1]s", "chan %[1]s", "<-chan %[1]s", "func(%[1]s) %[2]s", "func(...%[1]s)",
+	"struct{ f %[1]s; g %[2]s }", "List[%[1]s]", "*List[%[1]s]", "[]List[%[1]s]", "List[List[%[1]s]]", "List[[]%[1]s]", "Pair[%[2]s, %[1]s]",
+	"Pair[%[2]s, List[%[1]s]]", "map[%[2]s]List[%[1]s]", "interface{ M(%[1]s) %[2]s }", "func(List[%[1]s]) Pair[%[2]s, %[2]s]", "List[func(%[1]s) %[2]s]",
+	"List[struct{ f %[1]s }]", "Pair[%[2]s, *Pair[%[2]s, %[1]s]]", "List[chan %[1]s]", "List[map[%[2]s][]%[1]s]",
+}
+
+func generatedGenericSrc() string {
+	var b strings.Builder
+	for i, sh := range genericShapes {
+		for v, names := range [][2]string{{"T", "K"}, {"U", "A"}, {"K", "T"}} {
+			a, k := names[0], names[1]
+			t := fmt.Sprintf(sh, a, k)
+			// the shape as parameter and as result; K is comparable so that it may be a map key
+			fmt.Fprintf(&b, "func GS%d_%d[%s any, %s comparable](x %s) (r %s) { return }\n", i, v, a, k, t, t)
+		}
+		// both parameters swapped in the declaration order: NOT identical to the ones above
+		// unless the shape uses one parameter only (index-based hashing must not conflate them)
+		fmt.Fprintf(&b, "func GR%d[K comparable, T any](x %s) (r %s) { return }\n", i, fmt.Sprintf(sh, "T", "K"), fmt.Sprintf(sh, "T", "K"))
+	}
+	return b.String()
+}
+
 type universe struct {
 	types []types.Type
 	names []string
@@ -125,6 +156,7 @@ type universe struct {
 
 func buildUniverse() (*universe, error) {
 	fset := token.NewFileSet()
+	universeSrc := universeSrc + generatedGenericSrc()
 	f, err := parser.ParseFile(fset, "u.go", universeSrc, 0)
 	if err != nil {
 		return nil, err
@@ -174,6 +206,17 @@ func buildUniverse() (*universe, error) {
 				}
 				if inst, err := types.Instantiate(nil, list, []types.Type{types.NewSlice(types.Typ[types.String])}, false); err == nil {
 					add(fmt.Sprintf("%sList[[]string]#%d", tag, k), inst)
+				}
+			}
+		}
+		// method signatures of instantiated generic types, reached through the method set of
+		// two separately created instances (substituted signatures, distinct objects)
+		for k, v := range []string{"l1", "l2", "l3", "p1", "p2", "p3"} {
+			if o := sc.Lookup(v); o != nil {
+				ms := types.NewMethodSet(types.NewPointer(o.Type()))
+				for i := 0; i < ms.Len(); i++ {
+					add(fmt.Sprintf("%s%s.%s#%d", tag, v, ms.At(i).Obj().Name(), k), ms.At(i).Type())
+					add(fmt.Sprintf("%s%s.%s.obj#%d", tag, v, ms.At(i).Obj().Name(), k), ms.At(i).Obj().Type())
 				}
 			}
 		}
